@@ -104,6 +104,8 @@ def mutants(rnd, a):
     edit(lambda n: isinstance(n, ast.Constant) and type(n.value) is int and n.value in (0, 1), lambda n: setattr(n, "value", bool(n.value)), "constant-type-bool")
     edit(lambda n: isinstance(n, ast.Constant) and type(n.value) is int, lambda n: setattr(n, "value", str(n.value)), "constant-type-str")
     edit(lambda n: isinstance(n, ast.Constant) and type(n.value) is str, lambda n: setattr(n, "kind", "u"), "constant-kind-u")
+    edit(lambda n: isinstance(n, ast.Constant) and type(n.value) is str, lambda n: setattr(n, "value", n.value + "\u00e9"), "string-gains-non-ascii-char")
+    edit(lambda n: isinstance(n, ast.Attribute), lambda n: setattr(n, "attr", n.attr + "\u00e8"), "attribute-gains-non-ascii-char")
     edit(lambda n: isinstance(n, ast.BinOp) and astx.dump_fields(n.left) != astx.dump_fields(n.right), lambda n: (lambda l, r: (setattr(n, "left", r), setattr(n, "right", l)))(n.left, n.right), "operands-swapped")
     edit(lambda n: isinstance(n, (ast.Tuple, ast.List)) and len(n.elts) >= 2 and astx.dump_fields(n.elts[0]) != astx.dump_fields(n.elts[1]), lambda n: n.elts.reverse() if astx.dump_fields(n.elts) != astx.dump_fields(list(reversed(n.elts))) else n.elts.append(C(0)), "elements-reordered")
     edit(lambda n: isinstance(n, ast.Lambda), lambda n: setattr(n, "body", ast.Tuple(elts=[n.body], ctx=ast.Load())), "nesting-added")
@@ -314,6 +316,17 @@ def shard_main(ctx):
     ctx.case("long-tail", True)
     if h1 == h2:
         ctx.violation("insensitive-to:edit-at-end-of-long-query", "two 400-element queries differing in the last constant hash equal", {"text": "long"})
+    # queries that differ only in non-ASCII / astral characters (names, attributes, string constants)
+    uni = [("e.s\u00e9lection", "e.s\u00e8lection"), ("e.f('donn\u00e9es_\u00b5.root')", "e.f('donn\u00e9es_\u00b1.root')"), ("e.f('\U0001F600')", "e.f('\U0001F601')"),
+           ("e.f('\u4e2d')", "e.f('\u6587')"), ("\u00e9v.x", "\u00e8v.x"), ("e.f('a\u0301')", "e.f('\u00e1')")]
+    for a, b in uni:
+        ta, tb = f"Select(EventDataset(), lambda e: {a})".replace("lambda e: \u00e9v", "lambda \u00e9v: \u00e9v").replace("lambda e: \u00e8v", "lambda \u00e8v: \u00e8v"), None
+        tb = f"Select(EventDataset(), lambda e: {b})".replace("lambda e: \u00e9v", "lambda \u00e9v: \u00e9v").replace("lambda e: \u00e8v", "lambda \u00e8v: \u00e8v")
+        ctx.case("non-ascii:" + a, True)
+        ctx.count("mutant:non-ascii-pair")
+        ha, hb = table.see(astx.parse_expr(ta), "non-ascii"), table.see(astx.parse_expr(tb), "non-ascii")
+        if ha is not None and ha == hb:
+            ctx.violation("insensitive-to:non-ascii-character", f"{ta!r} and {tb!r} hash equal", {"text": ta, "mutant": tb, "tag": "non-ascii-character"})
     # Constant(-1) vs UnaryOp(USub, 1): print alike, differ structurally
     a1 = astx.parse_expr("f(x)[0]")
     a1.slice = astx.C(-1)
